@@ -94,7 +94,9 @@ LEMMA(lemma_ComptonProfile_Partial)
 {
   ND_Z(Z); ND_SHELL(shell); ND_FINITE(pz); ND_ERRSLOT(error);
   double r;
-  /* TABLES_WF (Compton profiles): a present element has 1..SHELLNUM_C occupancies (audited) */
+  /* TABLES_WF (Compton profiles): a present element has 1..SHELLNUM_C occupancies in an array of its own (audited);
+   * without this an unconstrained table pointer may alias the ghost state of the harness */
+  VCBMC(if (Z_OK(Z)) { UOCCUP_ComptonProfiles[Z] = malloc(sizeof(double) * SHELLNUM_C); __CPROVER_assume(UOCCUP_ComptonProfiles[Z] != NULL); __CPROVER_assume(NShells_ComptonProfiles[Z] <= SHELLNUM_C); })
   GHOST_RESET();
   r = ComptonProfile_Partial(Z, shell, pz, error);
   if (!(Z_OK(Z) && NShells_ComptonProfiles[Z] >= 1) || shell < 0 || shell >= NShells_ComptonProfiles[Z] ||
@@ -118,8 +120,12 @@ LEMMA(lemma_CSb_Photo_Partial)
   ND_Z(Z); ND_SHELL(shell); ND_ENERGY(E); ND_ERRSLOT(error);
   double r;
   /* TABLES_WF (Kissel): occupied shells lie within the edge-energy columns; their tables have at least two knots */
-  if (Z_OK(Z) && shell >= 0 && shell < SHELLNUM_K && !(Electron_Config_Kissel[Z][shell] < 1.0E-06))
+  if (Z_OK(Z) && shell >= 0 && shell < SHELLNUM_K && !(Electron_Config_Kissel[Z][shell] < 1.0E-06)) {
     VASSUME(shell < SHELLNUM && !V_ISNAN(Electron_Config_Kissel[Z][shell]) && !V_ISNAN(EdgeEnergy_arr[Z][shell]));
+    /* ... and knot / value arrays of their own with at least two entries */
+    VCBMC(E_Photo_Partial_Kissel[Z][shell] = malloc(2 * sizeof(double)); Photo_Partial_Kissel[Z][shell] = malloc(2 * sizeof(double));
+          __CPROVER_assume(E_Photo_Partial_Kissel[Z][shell] != NULL && Photo_Partial_Kissel[Z][shell] != NULL);)
+  }
   GHOST_RESET();
   r = CSb_Photo_Partial(Z, shell, E, error);
   if (!Z_OK(Z) || shell < 0 || shell >= SHELLNUM_K || E <= 0.0 || Electron_Config_Kissel[Z][shell] < 1.0E-06 ||
@@ -129,7 +135,6 @@ LEMMA(lemma_CSb_Photo_Partial)
   } else {
     double lnE = log(E);
     double *X = E_Photo_Partial_Kissel[Z][shell], *Y = Photo_Partial_Kissel[Z][shell], *Y2 = Photo_Partial_Kissel2[Z][shell];
-    VCBMC(__CPROVER_assume(__CPROVER_r_ok(X, 2 * sizeof(double)) && __CPROVER_r_ok(Y, 2 * sizeof(double)));)
     if (lnE < X[0]) {
       double m = (Y[1] - Y[0]) / (X[1] - X[0]);
       if (m > 1.0) m = 1.0; else if (m < -1.0) m = -1.0;
